@@ -68,6 +68,7 @@ def run(tier, seed):
     chk.cov["documents_enumerated"] = len(A) + len(Hh)
     # TLC enumerates all of them; a seeded sample is replayed (quick 2 x 2500, thorough 2 x 40000)
     cap = 2500 if tier == "quick" else 40000
+    A.sort(key=lambda d: d["src"]); Hh.sort(key=lambda d: d["src"])          # (TLC's workers print in no fixed order: the sample must not depend on it)
     A = rnd.sample(A, min(len(A), cap)); Hh = rnd.sample(Hh, min(len(Hh), cap))
     dl = uniq(A + Hh + gs.printed, key=lambda d: d["src"])
     exe = build.build_harness("asan")
@@ -77,7 +78,7 @@ def run(tier, seed):
         for j, d in enumerate(dl[i:i + per]):
             s.append(line("src", "n%d" % j, sx(enc(d["src"]))))
             for oi, (on, ox) in enumerate(OPTS[:4]):
-                if oi == 0 or (i + j + oi) % 4 == 0:
+                if oi == 0 or (i + j + oi) % 4 == 0 or (on == "unique" and d["doc"]["toc"] and d["doc"]["heads"]):     # (every table of contents also with random heading ids)
                     s.append(line("conv", "s_conv", "n%d" % j, 0, ox, 0))
             if (i + j) % 4 == 1:
                 # one parse, the token tree exported twice: the second export must be as good as the first
